@@ -302,6 +302,7 @@ func propC07(c *Ctx) {
 
 	// ---- R7.5 ----------------------------------------------------------
 	c.Rule("R7.5", "block-map look-ups test ok; out-of-range block numbers are rejected before data is attached", 5)
+	propC07TraceReplyBlock(c)
 	for _, name := range []string{"(*Client).receipts", "(*Client).logs", "(*Client).traces"} {
 		fn := w.Fn("jrpc2", name)
 		n := 0
@@ -1329,6 +1330,159 @@ func propC07Ranges(c *Ctx) {
 			c.Check("R7.5", fmt.Sprintf("%s/range-test-before-attach#%d", fnName(fn), n), instrPos(in), ok, spec.attDesc+" happens only for block numbers tested against [start, start+limit]")
 		})
 	}
+}
+
+// propC07TraceReplyBlock: trace_block is asked block by block; the reply's traces must be the asked
+// block's (F-22: a reply for another block of the range was attached where it said and the asked block
+// came back without traces).  Every element of the reply is compared with start+i, a mismatch is an
+// error, and the comparison comes before the block look-up.
+func propC07TraceReplyBlock(c *Ctx) {
+	w := c.W
+	fn := w.Fn("jrpc2", "(*Client).traces")
+	var pStart *ssa.Parameter
+	for _, p := range fn.Params {
+		if p.Name() == "start" {
+			pStart = p
+		}
+	}
+	reg := NewRegion(fn)
+	aff := &affEnv{reg: reg}
+	isAsked := func(v ssa.Value) bool {
+		// start + <request counter>
+		l := aff.Of(stripNum(v))
+		if pStart == nil || l.c != 0 {
+			return false
+		}
+		nStart, nCount := 0, 0
+		for a, k := range l.t {
+			if k == 0 {
+				continue
+			}
+			av := aff.vals[a]
+			switch {
+			case k == 1 && av == ssa.Value(pStart):
+				nStart++
+			case k == 1 && av != nil && isInduction(stripNum(av)):
+				nCount++
+			default:
+				return false
+			}
+		}
+		return nStart == 1 && nCount == 1
+	}
+	isReplyNum := func(v ssa.Value) bool {
+		f, base := loadedField(stripNum(v))
+		if f == nil || f.Name() != "BlockNum" {
+			return false
+		}
+		root, _ := fieldChain(base)
+		if s, _, ok := elemOf(root); ok {
+			lf, _ := loadedField(stripConv(s))
+			return lf != nil && lf.Name() == "Result"
+		}
+		s, _, ok := elemOf(base)
+		if !ok {
+			return false
+		}
+		lf, _ := loadedField(stripConv(s))
+		return lf != nil && lf.Name() == "Result"
+	}
+	var lookup ssa.Instruction
+	reg.AllInstrs(func(in ssa.Instruction) {
+		if _, _, ok := blockLookupInstr(in); ok && lookup == nil {
+			lookup = in
+		}
+	})
+	good, detail := false, "no comparison of the reply's block number with the asked block (start+i)"
+	reg.AllInstrs(func(in ssa.Instruction) {
+		b, ok := in.(*ssa.BinOp)
+		if !ok || good || (b.Op != token.NEQ && b.Op != token.EQL) {
+			return
+		}
+		if !((isReplyNum(b.X) && isAsked(b.Y)) || (isReplyNum(b.Y) && isAsked(b.X))) {
+			return
+		}
+		t, fl := boolEdges(b)
+		ne := t
+		if b.Op == token.EQL {
+			ne = fl
+		}
+		g := b.Parent()
+		for _, e := range ne {
+			var okEdges []Edge
+			for _, s2 := range e.From.Succs {
+				if s2 != e.To {
+					okEdges = append(okEdges, Edge{e.From, s2})
+				}
+			}
+			if arm, _ := errorArmLeaves(g, e, okEdges, nil); !arm {
+				detail = "a reply for another block is not an error"
+				return
+			}
+		}
+		// every element of the reply, or at least the one the block is looked up by
+		elemIdxInduction := false
+		for _, side := range []ssa.Value{b.X, b.Y} {
+			if isReplyNum(side) {
+				_, base := loadedField(stripNum(side))
+				root, _ := fieldChain(base)
+				if _, idx, ok := elemOf(root); ok && isInduction(idx) {
+					elemIdxInduction = true
+				} else if _, idx, ok := elemOf(base); ok && isInduction(idx) {
+					elemIdxInduction = true
+				}
+			}
+		}
+		if elemIdxInduction {
+			if every, found := passesEveryCompletedIteration(b); !found || !every {
+				detail = "the comparison does not run for every element of the reply"
+				return
+			}
+		}
+		if lookup != nil {
+			// the look-up may live in a helper of the routine (bm.claim(num, hash)): its call in the routine
+			if lookup.Parent() != b.Parent() {
+				for _, at := range reg.chain(lookup) {
+					if at.Parent() == b.Parent() {
+						lookup = at
+					}
+				}
+			}
+			if lookup.Parent() != b.Parent() {
+				detail = "the comparison and the block look-up are in different helpers"
+				return
+			}
+			if back, _ := reach(siteOf(lookup), isInstr(b), newCuts().addInstr(terminator(loopHeaderBlockOfRequests(fn)))); back {
+				detail = "the block is looked up before the reply was compared with the asked block"
+				return
+			}
+			if fwd, _ := reach(siteOf(b), isInstr(lookup), nil); !fwd {
+				detail = "the comparison does not precede the block look-up"
+				return
+			}
+		}
+		if !elemIdxInduction {
+			detail = "only the element the block is looked up by is compared; accepted"
+		} else {
+			detail = "every trace of the reply names the asked block"
+		}
+		good = true
+	})
+	c.Check("R7.5", "(*jrpc2.Client).traces/reply-is-for-the-asked-block", fn.Pos(), good, detail)
+}
+
+// loopHeaderBlockOfRequests: the header of the outermost counted loop of fn (the loop over the requests)
+func loopHeaderBlockOfRequests(fn *ssa.Function) *ssa.BasicBlock {
+	for _, b := range fn.DomPreorder() {
+		iff, ok := terminator(b).(*ssa.If)
+		if !ok {
+			continue
+		}
+		if bo, ok := iff.Cond.(*ssa.BinOp); ok && bo.Op == token.LSS && isInduction(bo.X) {
+			return b
+		}
+	}
+	return fn.Blocks[0]
 }
 
 // blockLookupInstr: in looks a block up by number with a found flag: `b, ok := bm[n]` on a
